@@ -158,4 +158,67 @@ func (*Stream).enrichJoin
   loop 1 invariant fresh(working) && working != nil
   loop 2 invariant fresh(working) && working != nil
   loop 3 invariant fresh(working) && working != nil
+
+// ---------------------------------------------------------------- C19: every emitted row is enqueued once or counted as dropped
+// ghost(sends) / ghost(recvs) count channel sends and receives on data channels, ghost(dones) receives from a
+// done channel, ghost(timeouts_<var>) receives from the timer held in local <var> (option channel_events).
+guarded_by Stream.dataChanMux: dataChan
+
+func (*Stream).safeGetDataChan
+  props C19
+  acquires s.dataChanMux
+  ensures result == s.dataChan
+
+func (*Stream).safeSendToDataChan
+  props C19
+  option channel_events
+  acquires s.dataChanMux
+  modifies ghost(sends)
+  ensures true-means-enqueued-once: result <==> ghost(sends) == old(ghost(sends)) + 1
+  ensures refusal-enqueues-nothing: !result ==> ghost(sends) == old(ghost(sends))
+  ensures stopped-or-closed-refuses: old(s.stopped) == 1 || s.dataChan == nil ==> !result
+
+func (*Stream).expandDataChannel
+  props C19
+  option channel_events
+  modifies s.expanding, s.dataChan, ghost(sends), ghost(recvs), ghost(timeouts_migrationTimeout), ghost(drained)
+  before Unlock old-buffer-observed-empty-before-the-swap: wheld(s.dataChanMux) ==> ghost(drained) == 1 || ghost(timeouts_migrationTimeout) > old(ghost(timeouts_migrationTimeout))
+  ensures migration-moves-every-row-it-takes: ghost(timeouts_migrationTimeout) == old(ghost(timeouts_migrationTimeout)) ==> ghost(sends) - old(ghost(sends)) == ghost(recvs) - old(ghost(recvs))
+  before Unlock swapped-only-to-a-larger-buffer-within-the-ceiling: wheld(s.dataChanMux) ==> s.dataChan == newChan && newCap > oldCap && (buf.MaxBufferSize > 0 ==> newCap <= buf.MaxBufferSize)
+  loop 1 invariant held(s.dataChanMux) && wheld(s.dataChanMux) && held(s.expansionMux) && s.expanding == 1
+  loop 1 invariant ghost(timeouts_migrationTimeout) == old(ghost(timeouts_migrationTimeout)) && ghost(sends) - old(ghost(sends)) == ghost(recvs) - old(ghost(recvs))
+  loop 1 invariant newCap > oldCap && (buf.MaxBufferSize > 0 ==> newCap <= buf.MaxBufferSize)
+
+func (*ExpansionStrategy).ProcessData
+  props C19
+  option channel_events
+  modifies es.stream.expanding, es.stream.dataChan, es.stream.mInputDropped.val, ghost(sends), ghost(recvs), ghost(dones), ghost(timeouts_migrationTimeout), ghost(timeouts_timer), ghost(drained)
+  ensures enqueued-once-or-counted-as-dropped-or-stopping: ghost(timeouts_migrationTimeout) == old(ghost(timeouts_migrationTimeout)) ==> ((ghost(sends) - ghost(recvs)) - (old(ghost(sends)) - old(ghost(recvs))) + (es.stream.mInputDropped.val - old(es.stream.mInputDropped.val)) == 1 || (old(es.stream.stopped) == 1 || ghost(dones) > old(ghost(dones))) && (ghost(sends) - ghost(recvs)) == (old(ghost(sends)) - old(ghost(recvs))) && es.stream.mInputDropped.val == old(es.stream.mInputDropped.val))
+  ensures never-both: es.stream.mInputDropped.val - old(es.stream.mInputDropped.val) <= 1 && es.stream.mInputDropped.val >= old(es.stream.mInputDropped.val)
+  loop 1 invariant ghost(timeouts_migrationTimeout) == old(ghost(timeouts_migrationTimeout)) ==> (ghost(sends) - ghost(recvs)) == (old(ghost(sends)) - old(ghost(recvs)))
+  loop 1 invariant es.stream.mInputDropped.val == old(es.stream.mInputDropped.val) && ghost(dones) == old(ghost(dones)) && 0 <= i
+
+func (*DropStrategy).ProcessData
+  props C19
+  option channel_events
+  modifies ds.stream.mInputDropped.val, ghost(sends), ghost(dones), ghost(timeouts_timer)
+  ensures enqueued-once-or-counted-as-dropped-or-stopping: (ghost(sends) - old(ghost(sends))) + (ds.stream.mInputDropped.val - old(ds.stream.mInputDropped.val)) == 1 || (old(ds.stream.stopped) == 1 || ds.stream.dataChan == nil || ghost(dones) > old(ghost(dones))) && ghost(sends) == old(ghost(sends)) && ds.stream.mInputDropped.val == old(ds.stream.mInputDropped.val)
+  loop 1 invariant ghost(sends) == old(ghost(sends)) && ds.stream.mInputDropped.val == old(ds.stream.mInputDropped.val) && ghost(dones) == old(ghost(dones))
+
+func (*BlockingStrategy).ProcessData
+  props C19
+  option channel_events
+  modifies bs.stream.mInputDropped.val, ghost(sends), ghost(dones), ghost(timeouts_timer)
+  ensures enqueued-once-or-counted-as-dropped-or-stopping: (ghost(sends) - old(ghost(sends))) + (bs.stream.mInputDropped.val - old(bs.stream.mInputDropped.val)) == 1 || (old(bs.stream.stopped) == 1 || bs.stream.dataChan == nil || ghost(dones) > old(ghost(dones))) && ghost(sends) == old(ghost(sends)) && bs.stream.mInputDropped.val == old(bs.stream.mInputDropped.val)
+  ensures block-without-timeout-never-drops: bs.stream.blockingTimeout <= 0 ==> bs.stream.mInputDropped.val == old(bs.stream.mInputDropped.val)
+
+func (*Stream).Stop
+  props C19
+  modifies *
+  before Unlock producers-see-nil-after-stop: wheld(s.dataChanMux) ==> s.dataChan == nil
+
+func (*StreamFactory).createStreamInstance
+  props C19
+  modifies *
+  ensures fresh(result)
 @*/
